@@ -47,3 +47,13 @@ package rangetask
 //@   requires !ctxDone(ctx)
 //@   loop 1 invariant clean: !ctxDone(ctx)
 //@   ensures cancelled: ctxDone(ctx) ==> w.err != nil
+
+// The delete-range task runs its per-range handler over exactly the range it was built for and hands back the runner's
+// verdict (a failed sub-range fails the task) and its count of completed regions.
+//@ func (t *DeleteRangeTask) Execute
+//@   prop C14
+//@   bytes: key
+//@   may-panic
+//@   opaque-callee getRunnerName NewRangeTaskRunner RunOnRange CompletedRegions
+//@   at call(RunOnRange) assert whole: arg_startKey == t.startKey && arg_endKey == t.endKey && recv == runner
+//@   at return assert verdict: result == err
